@@ -106,6 +106,15 @@ Definition books (p : post) : bool :=
   && forallb (fun b => forallb (fun t => existsb (Z.eqb (t_denom t)) (denoms_of p)) (b_tokens b)
                        && forallb (fun c => existsb (Z.eqb (fst c)) (denoms_of p)) (b_surplus b)) (all_baskets p).
 
+(* per operation: an operation may not break the books, nor widen an existing shortfall of the module
+   account against the recorded totals (so that a defect in one basket does not silence the clause
+   for the rest of the history) *)
+Definition shortfall (p : post) (d : Z) : Z := Z.max 0 (recorded_total p d - bal_at p MODULE d).
+Definition books_step (pre p : post) : bool :=
+  (negb (books pre) || books p)
+  && (negb (p_supply pre =? b_amount (p_bk pre)) || (p_supply p =? b_amount (p_bk p)))
+  && forallb (fun d => shortfall p d <=? shortfall pre d) (denoms_of p).
+
 (* token caps: weight_i * reserve_i <= cap * total (up to the 10^-18 rounding of Dec.Mul) *)
 Definition caps_ok (b : basket) : bool :=
   forallb (fun t => t_weight t * t_amount t * PREC <=? value_of b * b_cap b + PREC) (b_tokens b).
@@ -124,7 +133,7 @@ Definition kind_of (o : op) : string :=
   | OMint _ _ _ => "mint" | OBurn _ _ _ _ => "burn" | OSwap _ _ _ => "swap" | OEdit _ => "edit"
   | ODisable _ _ => "disable" | OSlashHook => "slash_hook" | ORaiseHook => "raise_hook"
   | OSlashW _ _ => "slash_weights" | OEndBlock _ => "end_block" | OUpsertHook _ => "upsert_hook"
-  | OWithdraw _ _ => "withdraw_surplus" | OCreate _ => "create"
+  | OWithdraw _ _ _ => "withdraw_surplus" | OCreate _ => "create" | OGenesis => "genesis"
   end.
 
 (* how much the backing deficit may grow in one operation: only rounding (Dec.Quo rounds half
@@ -137,7 +146,27 @@ Definition allowance (o : op) (pre p : post) : Z :=
   | _ => 0
   end.
 
-Record logs := mkL { l_m : history; l_b : history; l_s : history }.
+(* [l_gen]: a genesis export/import happened earlier in the history (the stored action history then
+   carries whole seconds only; limit violations after it are reported under their own name) *)
+(* average disbalance of a record, from the property's mechanism (mean over the tokens of
+   |average value - value_i| / average value), as an exact fraction scaled by 10^18 and rounded down;
+   [None] when the reserves are worth nothing *)
+Definition disbalance_spec (b : basket) : option Z :=
+  let vs := map (fun t => t_weight t * t_amount t) (b_tokens b) in
+  let n := Z.of_nat (List.length vs) in
+  let T := zsum vs in
+  if (n =? 0) || (T <=? 0) then None
+  else Some (PREC * zsum (map (fun v => Z.abs (T - n * v)) vs) / (n * T)).
+(* a LOWER bound of the slippage fee the swap must charge (10 units of 10^-18 tolerance for the
+   Dec roundings of the implementation; nothing is demanded when the disbalance did not clearly grow) *)
+Definition slippage_lower (pre post : basket) : Z :=
+  match disbalance_spec pre, disbalance_spec post with
+  | Some d0, Some d1 => let tol := 10 * (Z.of_nat (List.length (b_tokens pre)) + 2) in
+                        if d1 - d0 <=? tol then 0 else Z.max (b_slip pre) (d1 - d0 - tol)
+  | _, _ => 0
+  end.
+
+Record logs := mkL { l_m : history; l_b : history; l_s : history; l_gen : bool }.
 
 Definition pair_value (b : basket) (pr : Z * Z * Z) : Z :=
   let '(din, xin, _) := pr in
@@ -145,8 +174,9 @@ Definition pair_value (b : basket) (pr : Z * Z * Z) : Z :=
 
 Definition op_clauses (lg : logs) (o : op) (pre p : post) : list string :=
   let k := kind_of o in
+  let limits := if l_gen lg then "limits_after_genesis"%string else "limits"%string in
   let b := p_bk pre in let b' := p_bk p in
-  cl (negb (books pre) || books p) "books" k ++
+  cl (books_step pre p) "books" k ++
   cl (deficit p <=? deficit pre + allowance o pre p) "backed" k ++
   match o with
   | OMint now a dep =>
@@ -155,7 +185,7 @@ Definition op_clauses (lg : logs) (o : op) (pre p : post) : list string :=
       cl ((minted * PREC <=? dep_value) && (delta pre p a BDENOM <=? minted) && (p_supply p - p_supply pre =? minted)
           && forallb (fun c => delta pre p a (fst c) =? - snd c) dep) "mint_value" k ++
       cl (negb (b_md b) && forallb (fun c => flag_of t_dep b (fst c)) dep) "disabled" k ++
-      cl ((b_mmin b <=? minted) && (in_period (l_m lg) now (b_period b) + minted <=? b_mmax b)) "limits" k ++
+      cl ((b_mmin b <=? minted) && (in_period (l_m lg) now (b_period b) + minted <=? b_mmax b)) limits k ++
       cl (caps_ok b') "caps" k
   | OBurn now a d x =>
       let S := p_supply pre in
@@ -164,8 +194,15 @@ Definition op_clauses (lg : logs) (o : op) (pre p : post) : list string :=
                  (let r := rec_reserve b d' in
                   delta pre p a d' * S * two_prec <=? r * x * two_prec + r * S + two_prec * S)) (denoms_of pre))
          "burn_pro_rata" k ++
+      (* rounding direction, whichever supply the portion is taken of: never more than the exact share
+         of the supply LEFT after the burn (a fortiori of the supply before it), up to the 10^-18
+         rounding of the portion -- no whole-unit slack *)
+      cl (let S' := p_supply p in
+          forallb (fun d' => (d' =? BDENOM) || (S' <=? 0) ||
+                 (let r := rec_reserve b d' in delta pre p a d' * S' * two_prec <=? r * x * two_prec + r * S')) (denoms_of pre))
+         "burn_rounding" k ++
       cl (negb (b_bd b) && forallb (fun t => t_wd t || (delta pre p a (t_denom t) <=? 0)) (b_tokens b)) "disabled" k ++
-      cl ((b_bmin b <=? x) && (in_period (l_b lg) now (b_period b) + x <=? b_bmax b)) "limits" k ++
+      cl ((b_bmin b <=? x) && (in_period (l_b lg) now (b_period b) + x <=? b_bmax b)) limits k ++
       cl (caps_ok b') "caps" k
   | OSwap now a ps =>
       let in_value := zsum (map (fun pr : Z * Z * Z => let '(din, xin, _) := pr in
@@ -174,17 +211,24 @@ Definition op_clauses (lg : logs) (o : op) (pre p : post) : list string :=
       cl ((net * PREC <=? - (b_fee b * in_value) + Z.of_nat (List.length ps) * (max_weight b + PREC))
           && forallb (fun d => match weight_of b d with Some _ => true | None => delta pre p a d <=? 0 end) (denoms_of pre)
           && (b_amount b' =? b_amount b) && (p_supply p =? p_supply pre)) "swap_value" k ++
+      (* ... less the slippage fee as well: what is received is worth at most (1 - swap fee)(1 - slippage
+         fee) of what is paid in, the slippage fee recomputed here from the observed records *)
+      cl (let keep := ((PREC - b_fee b) * (PREC - slippage_lower b b')) / PREC + 1 in
+          let recv := zsum (map (fun d => match weight_of b d with
+                                          | Some w => w * (delta pre p a d + zsum (map (fun pr : Z * Z * Z => let '(din, xin, _) := pr in if din =? d then xin else 0) ps))
+                                          | None => 0 end) (denoms_of pre)) in
+          (slippage_lower b b' =? 0) || (recv * PREC <=? keep * in_value + Z.of_nat (List.length ps) * (max_weight b + PREC))) "swap_slippage" k ++
       cl (negb (b_sd b) && forallb (fun pr : Z * Z * Z => let '(din, _, dout) := pr in flag_of t_sw b din && flag_of t_sw b dout) ps) "disabled" k ++
       cl (forallb (fun pr => b_smin b <=? pair_value b pr) ps
-          && (in_period (l_s lg) now (b_period b) + zsum (map (pair_value b) ps) <=? b_smax b)) "limits" k ++
+          && (in_period (l_s lg) now (b_period b) + zsum (map (pair_value b) ps) <=? b_smax b)) limits k ++
       cl (caps_ok b') "caps" k
   | ODisable _ allowed => cl allowed "gate" k
-  | OWithdraw ids target =>
+  | OWithdraw ids target rewards =>
       (* the receiver gets at most the recorded surplus of the DISTINCT baskets listed, and only
          surplus records change (reserves, amounts and supplies stay) *)
       let listed := filter (fun ib => existsb (Z.eqb (fst ib)) ids)
                            (combine (map Z.of_nat (seq 1 (List.length (all_baskets pre)))) (all_baskets pre)) in
-      cl (forallb (fun d => delta pre p target d <=? zsum (map (fun ib => rec_surplus (snd ib) d) listed)) (denoms_of pre)
+      cl (forallb (fun d => delta pre p target d <=? zsum (map (fun ib => rec_surplus (snd ib) d) listed) + coin_of rewards d) (denoms_of pre)
           && list_eqb (fun x y => (b_amount x =? b_amount y) && list_eqb token_eqb (b_tokens x) (b_tokens y)) (all_baskets pre) (all_baskets p)
           && (p_supply p =? p_supply pre)) "surplus_paid_once" k
   | OCreate new =>
@@ -196,9 +240,10 @@ Definition op_clauses (lg : logs) (o : op) (pre p : post) : list string :=
 
 Definition log_op (lg : logs) (o : op) (pre p : post) : logs :=
   match o with
-  | OMint now _ _ => mkL ((now, b_amount (p_bk p) - b_amount (p_bk pre)) :: l_m lg) (l_b lg) (l_s lg)
-  | OBurn now _ _ x => mkL (l_m lg) ((now, x) :: l_b lg) (l_s lg)
-  | OSwap now _ ps => mkL (l_m lg) (l_b lg) ((now, zsum (map (pair_value (p_bk pre)) ps)) :: l_s lg)
+  | OMint now _ _ => mkL ((now, b_amount (p_bk p) - b_amount (p_bk pre)) :: l_m lg) (l_b lg) (l_s lg) (l_gen lg)
+  | OBurn now _ _ x => mkL (l_m lg) ((now, x) :: l_b lg) (l_s lg) (l_gen lg)
+  | OSwap now _ ps => mkL (l_m lg) (l_b lg) ((now, zsum (map (pair_value (p_bk pre)) ps)) :: l_s lg) (l_gen lg)
+  | OGenesis => mkL (l_m lg) (l_b lg) (l_s lg) true
   | _ => lg
   end.
 
@@ -224,7 +269,7 @@ Fixpoint hist_clauses (lg : logs) (pre : post) (steps : list (op * Z * option po
   end.
 
 Definition case_clauses (c : c11_case) : list string :=
-  match c with C11Hist init steps => cl (books init) "books" "create" ++ hist_clauses (mkL [] [] []) init steps end.
+  match c with C11Hist init steps => cl (books init) "books" "setup" ++ hist_clauses (mkL [] [] [] false) init steps end.
 
 Fixpoint dedup (l : list string) : list string :=
   match l with [] => [] | x :: r => if str_in x r then dedup r else x :: dedup r end.
